@@ -64,6 +64,8 @@ class Ctx:
         self.fixture = fixture
         depth, width = (3, 8) if tier == 'quick' else (6, 32)
         self.opa = Opa(facts, inline_depth=depth, width=width)
+        self.opa0 = Opa(facts, inline_depth=0, width=width)     # no inlining: calls of crate fns stay visible as terms
+        self._opa0_res = {}
         self._cg = None
         self._cfg = {}
         self._slots = None
@@ -96,6 +98,11 @@ class Ctx:
         if name not in self._opa_res:
             self._opa_res[name] = self.opa.run(name)
         return self._opa_res[name]
+
+    def run0(self, name):
+        if name not in self._opa0_res:
+            self._opa0_res[name] = self.opa0.run(name)
+        return self._opa0_res[name]
 
     def where(self, body, line=None):
         return body.where(line)
